@@ -336,6 +336,16 @@ def _held_filter_ok(ctx, src, mapper):
     if not ctx.has_body(callee) or not callee.startswith("key_transforms::Mapper::"):
         return False, "held-test %s is not a Mapper method" % callee
     hb = ctx.body(callee)
+    # (the method may hand the question on unchanged:  fn is_output_held(&self, k) -> bool { self.state.holds_output(k) })
+    for _ in range(3):
+        ps_ = [p for p in mir.walk_function(hb) if p.outcome[0] not in ("unreachable", "infeasible")]
+        if len(ps_) == 1 and ps_[0].outcome[0] == "return" and not [e for e in ps_[0].events if e.kind in ("guard", "store")]:
+            r_ = ps_[0].outcome[1]
+            if isinstance(r_, tuple) and r_[0] == "call" and ctx.has_body(r_[1]) and len(r_[2]) == 2 and mir.strip(r_[2][1]) == T("param", 2, hb.dbg.get(2, "")) \
+                    and ctx.body(r_[1]).ltypes.get(0) == "bool":
+                hb = ctx.body(r_[1])
+                continue
+        break
     try:
         atoms, table = tables.bool_function(mir.walk_function(hb))
     except tables.TableError as ex:
